@@ -10,6 +10,7 @@ import Driver.OpsUpload
 import Driver.OpsPropfind
 import Driver.OpsCardWire
 import Driver.OpsCalWire
+import Driver.OpsFront
 namespace Driver
 
 def dispatch (op : String) (args : List SExp) : Option OpResult :=
@@ -56,6 +57,8 @@ def dispatch (op : String) (args : List SExp) : Option OpResult :=
   | "card.dec" => opCardDec args
   | "card.encmg" => opCardEncMg args
   | "card.decmg" => opCardDecMg args
+  | "srv.req" => opSrvReq args
+  | "srv.obj" => opSrvObj args
   | "cal.enc" => opCalEnc args
   | "cal.dec" => opCalDec args
   | "cal.encmg" => opCalEncMg args
